@@ -106,19 +106,32 @@ def run_distance(a, b, limit):
     return None
 
 
-@h(bounds="levenshtein / damerau_levenshtein (= distance) for every ordered pair of words up to length %d over {a,b,c} incl. the empty word, unlimited and "
-          "with limit 0..3, vs an independent definition" % MAXLEN,
-   funcs=["whoosh.support.levenshtein.levenshtein", "whoosh.support.levenshtein.damerau_levenshtein"],
-   examples=[dict(a=5, b=9, lim=1), dict(a=0, b=3, lim=0)], timeout=dict(quick=900, thorough=3000), outside="longer words, larger alphabets")
-def c19_distance(a: int, b: int, lim: int) -> Optional[str]:
-    """
-    pre: 0 <= a < NW and 0 <= b < NW and 0 <= lim <= 3
-    post: _ is None
-    """
-    with notrace():
-        r = run_distance(pick(a, NW), pick(b, NW), pick(lim, 4))
-    tick(True)
-    return r
+NWB = len([w for w in WORDS if len(w) <= 3])      # second word: up to length 3 in both tiers
+
+
+def _mk_distance(lim):
+    name = "c19_distance_limit%d" % lim
+
+    @h(bounds="levenshtein / damerau_levenshtein (= distance) for every ordered pair (word up to length %d, word up to length 3) over {a,b,c} incl. the empty "
+              "word, unlimited and with limit %d, vs an independent definition" % (MAXLEN, lim),
+       funcs=["whoosh.support.levenshtein.levenshtein", "whoosh.support.levenshtein.damerau_levenshtein"],
+       examples=[dict(a=5, b=9), dict(a=0, b=3)], timeout=dict(quick=900, thorough=3000), outside="longer words, larger alphabets")
+    def harness(a: int, b: int) -> Optional[str]:
+        """
+        pre: 0 <= a < NW and 0 <= b < NWB
+        post: _ is None
+        """
+        with notrace():
+            r = run_distance(pick(a, NW), pick(b, NWB), lim)
+        tick(True)
+        return r
+    harness.__name__ = harness.__qualname__ = name
+    return name, harness
+
+
+for _lim in range(4):
+    _n, _f = _mk_distance(_lim)
+    globals()[_n] = _f
 
 
 def run_within(wi, d, p, allow_known_off=False):
